@@ -10,6 +10,7 @@ func init() {
 	vRegister("ZZ_C06_Sync", ZZ_C06_Sync)
 	vRegister("ZZ_C06_Sym", ZZ_C06_Sym)
 	vRegister("ZZ_C07_Sync", ZZ_C07_Sync)
+	vRegister("ZZ_C07_Sym", ZZ_C07_Sym)
 	vRegister("ZZ_C20_Sync", ZZ_C20_Sync)
 	vRegister("ZZ_C20_Sym", ZZ_C20_Sym)
 }
@@ -70,6 +71,15 @@ func ZZ_C06_Sym() {
 		s.syncEvents("c06.drain")
 		s.syncPlain("c06.final")
 		zzPerKeyOrder(s, "c06")
+	}
+}
+
+// ZZ_C07_Sym: symbolic clock and durations, queueing executor (no sweep): the Expiration causes that operations meeting
+// an expired, unswept node report (and the absence of such reports while the model's exact deadline has not passed).
+func ZZ_C07_Sym() {
+	s := zzRunSym("c07", zzCfgFromParams())
+	if s.env.cfg.bound == 0 {
+		vAssert(!s.hadOverflow, "c07.overflow_without_bound")
 	}
 }
 
